@@ -226,6 +226,8 @@ def build_step(repo):
         Rule("R1", "return Ok ( ret . clone ( ) ) ;", "return Ok ( Step :: Returned ( clone_rv ( ret ) ) ) ;", count=1, why="the step function returns what the loop would: the function's return value, or the next instruction pointer"),
         Rule("R1", "return Ok ( $$e ) ;", lambda b: None if (b["e"] and b["e"][0] == "Step") else "return Ok ( Step :: Returned ( " + text(b["e"]) + " ) ) ;", why="any other `return Ok(v)` of the loop: the function's return value"),
         Rule("R9", "self . instructions . get ( $$i ) . is_some_and ( | $x | $$p )", "( match instr_get ( instrs , $$i ) { Some ( $x ) => $$p , None => false } )", why="slice::get + Option::is_some_and -> match"),
+        Rule("R9", "self . instructions . get ( $$i )", "instr_get ( instrs , $$i )", why="slice::get on the function's instruction array"),
+        Rule("R1", "self . instructions . len ( )", "instrs . len ( )", why="the function's instruction array as a parameter of the fragment"),
         Rule("R1", "self . instructions [ $$i ]", "instrs [ $$i ]", why="the function's instruction array as a parameter of the fragment"),
         Rule("R1", "id :: $c", "opcode :: $c", why="opcode constants of instruction_constants.rs"),
         Rule("R6", "jump_callback ( jump_request ) ?", "jump_callback_call ( jump_callback , jump_request ) ?", why="jump callback abstract (runs another function / module / library call)"),
